@@ -14,7 +14,8 @@ deriving Repr, DecidableEq
 structure St where
   recorded : Nat := 0              -- failures recorded so far (block errors, MetaStore iteration error)
   chan : Nat := 0                  -- batches sitting in rowChan (≤ 4)
-  pending : Nat := 0               -- rows of the batch being handed out
+  queue : List Nat := []           -- their sizes, oldest first (chan = queue.length)
+  pending : Nat := 0               -- rows of the batch being handed out that Next has not returned yet
   workersDone : Bool := false      -- pipeline exited: rowChan and done are closed
   callerCanceled : Bool := false   -- the Query context is done
   internalCanceled : Bool := false -- the cursor's internal context is done (caller cancel, Close, finish)
@@ -52,7 +53,8 @@ def finish (s : St) (e : Term) : St :=
 def step (s : St) : Ev → Option St
   | .record => if s.workersDone then none else some { s with recorded := s.recorded + 1 }
   | .deliver rows =>
-    if s.workersDone || decide (s.chan ≥ 4) || decide (rows = 0) then none else some { s with chan := s.chan + 1 }
+    if s.workersDone || decide (s.chan ≥ 4) || decide (rows = 0) then none
+    else some { s with chan := s.chan + 1, queue := s.queue ++ [rows] }
   | .workersDone => if s.workersDone then none else some { s with workersDone := true }
   | .cancelCaller => some { s with callerCanceled := true, internalCanceled := true }
   | .nextEnter =>
@@ -65,7 +67,9 @@ def step (s : St) : Ev → Option St
     then some { s with inNext := false, pending := s.pending - 1 } else none
   | .nextBatch =>
     if s.inNext && !s.iterDone && !s.sawCancel && decide (s.pending = 0) && decide (s.chan > 0)
-    then some { s with inNext := false, chan := s.chan - 1 } else none
+    then some { s with inNext := false, chan := s.chan - 1, queue := s.queue.tail,
+                       pending := (s.queue.head?.getD 1) - 1 }   -- returns the batch's first row now
+    else none
   | .nextFalseClean =>
     if s.inNext && !s.iterDone && !s.sawCancel && decide (s.pending = 0) && decide (s.chan = 0) && s.workersDone
     then some (finish s (joined s.recorded)) else none
